@@ -266,6 +266,7 @@ def build():
         def h(I):
             return VBool(len(events_named(I, name)) > 0)
         return h
+    C.trace_helpers = {"issued_hw_enable", "issued_hw_disable"}
     C.helpers["issued_hw_enable"] = trace_has("hw.enable")
     C.helpers["issued_hw_disable"] = trace_has("hw.disable")
 
@@ -301,7 +302,12 @@ def build():
          requires=["self.platform is not None"],
          modifies=["self.delay.pending"], raises=LIMERR)
 
-    C.fn("Driver._pulse_now", params=dict(pulse_ms=Int, pulse_power=Num),
+    def emit_pulse_now(I, env, res):
+        """callers only learn: the hardware may have been enabled (software-timed pulse) or pulsed"""
+        if I.ctx.fork(2) == 0:
+            common.emit(I, "hw.enable", via="contract")
+
+    C.fn("Driver._pulse_now", params=dict(pulse_ms=Int, pulse_power=Num), emits=emit_pulse_now,
          requires=VERIFIED_PULSE,
          ensures=[("software-timed enable => switch-off scheduled for pulse_ms",
                    "implies(issued_hw_enable(), timed_disable_pending() and timed_disable_ms() == pulse_ms)")],
